@@ -378,7 +378,7 @@ class Gen:
         k = rng.choice(opts)
         if k == "cmp":
             return "{} {} {}".format(self.int_expr(d + 1), rng.choice(["<", "<=", ">", ">=", "==", "!="]), self.int_expr(d + 1))
-        if k == "walrus_over_global" and self.has("walrus"):
+        if k == "walrus_over_global" and self.has("walrus") and d <= 1:
             # the target of the assignment expression also exists as a module global: inside the lambda it is a local from then on
             return rng.choice(["((found := pick({xs}, 0, None)) is not None and found > {i})",
                                "((found := {d}.get('k')) is not None and found + 1 > {i})",
@@ -545,10 +545,17 @@ class Gen:
         return t.format(xs=xs, d=dd, o=o, a=a, b=b, n=nn, s=self.n("s"), i=self.int_leaf(), i2=self.int_leaf(), k=rng.choice(["k", "m"]), k2=rng.choice(["z", "v"]))
 
     def condition(self) -> str:
-        r = self.rng.random()
-        if r < self.guarded_bias:
-            return self.guarded(0)
-        return self.bool_expr(0)
+        # (the templates are combined freely; the few combinations Python refuses - e.g. an assignment expression that ends up
+        # inside the iterable of a comprehension - are drawn again)
+        for _ in range(50):
+            r = self.rng.random()
+            expr = self.guarded(0) if r < self.guarded_bias else self.bool_expr(0)
+            try:
+                compile("lambda: " + expr, "<generated condition>", "eval")
+            except SyntaxError:
+                continue
+            return expr
+        return "{} < {}".format(self.int_leaf(), self.int_leaf())
 
 
 # ---------------------------------------------------------------------------------------------------------------------
